@@ -1082,6 +1082,7 @@ func (st *State) lookup(x *ssa.Lookup) Value {
 		has, val := st.mapLookupH(st.heap, m, u, k.Term)
 		has = st.define("has", has, SBool)
 		val.Term = st.define("mv", val.Term, val.S)
+		st.mapWitness = append(st.mapWitness[:len(st.mapWitness):len(st.mapWitness)], mapWit{m: m.Term, k: k, v: val, cond: has})
 		st.assumeWF(val)
 		if x.CommaOk {
 			return Value{T: x.Type(), S: "Tuple", Tuple: []Value{val, {T: types.Typ[types.Bool], S: SBool, Term: has}}}
@@ -1147,6 +1148,7 @@ func (st *State) next(x *ssa.Next) Value {
 	has, val := st.mapLookupH(st.heap, it.Range.over, mt, k.Term)
 	st.assume(imp(ok, has))
 	val.Term = st.define("rv", val.Term, val.S)
+	st.mapWitness = append(st.mapWitness[:len(st.mapWitness):len(st.mapWitness)], mapWit{m: it.Range.over.Term, k: k, v: val, cond: ok})
 	st.assumeWF(val)
 	kk, vv := k, val
 	if !isInvalid(tup.At(1).Type()) {
